@@ -283,6 +283,25 @@ def boundary_values():
     return sorted(vals)
 
 
+def check_crisp_dtypes(ctx, case) -> None:
+    """Crisp degrees 0/1 given as booleans or integers (Function terms with and/or return numpy booleans as
+    memberships): the norm's documented value, as for 0.0 / 1.0."""
+    name = case["norm"]
+    n = make(name)
+    for a in (0, 1):
+        for b in (0, 1):
+            want = float(ref(name, F(a), F(b)))
+            for kind, (x, y) in (("bool", (bool(a), bool(b))), ("np.bool_", (np.bool_(a), np.bool_(b))),
+                                 ("int", (a, b)), ("np.int64", (np.int64(a), np.int64(b))),
+                                 ("bool-array", (np.array([bool(a)] * 2), np.array([bool(b)] * 2))),
+                                 ("int-array", (np.array([a, a]), np.array([b, b])))):
+                got = np.asarray(n.compute(x, y), dtype=float).reshape(-1)
+                ctx.ev()
+                ctx.check(bool(np.all(got == want)), "crisp-dtype:" + kind, {"norm": name, "a": a, "b": b, "dtype": kind},
+                          {"got": got.tolist(), "want": want})
+    ctx.nt(["crisp-dtypes", name], {"norm": name, "dtypes": "bool, np.bool_, int, np.int64, arrays"})
+
+
 def shard_boundary(ctx, shard, nshards):
     names = TNORMS + SNORMS
     vals = boundary_values()
@@ -292,6 +311,7 @@ def shard_boundary(ctx, shard, nshards):
         pts = [[a, b] for a in vals for b in vals]
         ctx.direct("pairs", check_pairs, [{"norm": name, "pts": pts, "exact": False, "shape": None}])
         ctx.cls("boundary_pairs", len(pts))
+        ctx.direct("crisp", check_crisp_dtypes, [{"norm": name}])
 
 
 def shard_random(ctx, shard, nshards, ex):
@@ -326,6 +346,6 @@ def run(ctx) -> None:
 
 
 def replay(ctx, prop, case) -> None:
-    fn = {"pairs": check_pairs, "triples": check_triples}.get(prop)
+    fn = {"pairs": check_pairs, "triples": check_triples, "crisp": check_crisp_dtypes}.get(prop)
     if fn:
         ctx.direct(prop, fn, [case])
